@@ -21,6 +21,7 @@ THEOREMS = "C08_abstract C08_one_constraint C08_sequence C08_sequence_spin C08_r
 MODELLED = "as C01/C02/C03/C06/C09; sizes are kept at <= 10 variables including ancillas so that the model side stays cheap"
 
 HOLDS = c02.HOLDS
+BY = [None]
 
 
 def ev(items, x):
@@ -141,9 +142,14 @@ def gen(rng, i, tier):
             c["c"]["lam"] = [W.numerator, W.denominator]
         target = rng.randrange(4)
         deg = rng.choice([2, 2, 3]) if target in (0, 3) else None
+        warm = None
+        if obj and rng.random() < 0.3:
+            k, v = rng.choice(obj)
+            d = rng.choice([x for x in (F(1), F(-1), F(2), F(-3)) if x != v])      # the starting coefficient v - d is not zero
+            warm = [[C.enc(x) for x in k], [d.numerator, d.denominator]]
         sym = (1 if rng.random() < 0.6 else rng.randint(1, len(calls))) if rng.random() < 0.4 else 0
         return {"spin": spin, "obj": G.jraw(obj), "calls": calls, "target": target, "deg": deg, "labs": [C.enc(l) for l in labs],
-                "sym": sym}
+                "sym": sym, "warm": warm}
     raise RuntimeError("no feasible workflow generated")
 
 
@@ -154,11 +160,21 @@ def build(case):
     if nsym:
         import sympy
         sym = sympy.Symbol("lam")
+    by = BY[0] = C.Bystanders()
+    warm = case.get("warm")          # [objective key, delta]: that coefficient starts delta short and is corrected at the end
+    if warm:
+        H[tuple(C.dec(x) for x in warm[0])] -= C.num(F(*warm[1]))
     with warnings.catch_warnings():
         warnings.simplefilter("ignore")
         for j, c in enumerate(case["calls"]):
             cc = c["c"]
             lam = C.num(F(*cc["lam"]))
+            if j and not nsym:
+                if j % 2:
+                    by.add(H.copy(), "a copy taken after %d constraints" % j)
+                else:
+                    by.add(H, "the model a copy was taken from (after %d constraints)" % j)
+                    H = H.copy()
             if nsym and j == nsym:
                 H = H.subs({sym: lam})
             if j < nsym:
@@ -174,6 +190,15 @@ def build(case):
                 getattr(H, "add_constraint_%s%s" % ("eq_" if cc["eq"] else "", cc["g"]))(*ops, lam=lam)
         if nsym and nsym >= len(case["calls"]):
             H = H.subs({sym: C.num(F(*case["calls"][0]["c"]["lam"]))})
+    if warm:
+        # every conversion once on the model as it is, then the coefficient is put right (same terms, variables and degree):
+        # nothing a conversion may have remembered can be taken for the final model
+        for meth, a in (("to_qubo", ()), ("to_quso", ()), ("to_pubo", (case["deg"],)), ("to_puso", (case["deg"],))):
+            try:
+                getattr(H, meth)(*a)
+            except (KeyError, ValueError, TypeError):
+                pass
+        H[tuple(C.dec(x) for x in warm[0])] += C.num(F(*warm[1]))
     return H
 
 
@@ -193,8 +218,9 @@ def run_impl(case):
         H = build(case)
     except (KeyError, ValueError, TypeError) as ex:
         return {"error": type(ex).__name__, "checks": []}
+    out["checks"].extend(BY[0].changed())
     if H.num_binary_variables > 10:
-        return {"skip": True, "checks": []}
+        return {"skip": True, "checks": out["checks"]}
     spin = case["spin"]
     labs = [l for l in (C.dec(x) for x in case["labs"]) if l in H.variables]      # the ones that actually occur
     dom = (1, -1) if spin else (0, 1)
